@@ -87,7 +87,17 @@ func (p *poller) addConn(c *Conn) error {
 		p.g.onUDPListen(c)
 	}
 	p.g.connsUnix[fd] = c
-	err := p.addRead(fd)
+	// A write issued by the open callback may have left a backlog. Its
+	// EPOLL_CTL_MOD could not succeed before the fd was added, so register the
+	// writing event together with the reading event in that case.
+	c.mux.Lock()
+	var err error
+	if len(c.writeList) > 0 {
+		err = p.addReadWrite(fd)
+	} else {
+		err = p.addRead(fd)
+	}
+	c.mux.Unlock()
 	if err != nil {
 		p.g.connsUnix[fd] = nil
 		_ = c.closeWithError(err)
